@@ -270,3 +270,30 @@ Proof.
   clearbody s'. destruct H' as [HXS' [HQ' HU']]. destruct (Qo_alive_tsk _ _ _ _ HQ') as [Ha' Ht']. rewrite <- Ht'.
   apply XS_delop_pair; [exact Ha'|apply UQo_getter; exact HU'|exact HXS'].
 Qed.
+
+(* ---- the clean-up queue -------------------------------------------------------------------------------------------- *)
+Ltac g_prim H := destruct H as [HSW [HW HXS]]; split; [sw_go2 | split; [apply (WL_W []); apply WL_of_W in HW; w_go2 | xs_go1]].
+
+Lemma G_run_entry : forall e s, In e (cleanup_entries s) -> G s -> G (run_entry e s).
+Proof.
+  intros [z ce] s Hin H. unfold run_entry. cbn [fst snd]. destruct ce as [o|w|k].
+  - apply G_operation_remove.
+    + rewrite op_alive_upd_op. eapply cleanup_entry_op_alive. exact Hin.
+    + g_prim H.
+  - pose proof (cleanup_entry_worker s z w (SW_St _ (G_SW _ H)) Hin) as Hc.
+    pose proof (SW_WP _ (G_SW _ H)) as [A2 [_ [B1 _]]].
+    apply G_remove_stale_worker.
+    + eapply unnamed_frame; [apply calls_upd_worker|]. intros c p Hcp Hs. destruct (A2 _ _ _ Hcp Hs) as [_ E]. congruence.
+    + rewrite get_worker_upd_worker. destruct (wref_eqb w w && worker_exists s w); cbn; apply B1; congruence.
+    + g_prim H.
+  - pose proof (cleanup_entry_scq s z k (SW_St _ (G_SW _ H)) Hin) as Hc.
+    pose proof (SW_WP _ (G_SW _ H)) as [_ [_ [_ [_ [_ [_ [_ E7]]]]]]].
+    apply G_scq_remove; [|g_prim H].
+    assert (Hn : NWf k s) by (apply E7; congruence). change (NWf k (upd_scq k (fun q => q <| q_cleanup := None |>) s)). t_nw.
+Qed.
+
+Lemma G_enter : forall t s, G s -> G (enter t s).
+Proof.
+  intros t s H. unfold enter. destruct (s_now s <? t); [|exact H]. cbv zeta.
+  apply cleanup_run_closed; [intros s1 w H1; g_prim H1 | intros; apply G_run_entry; assumption | g_prim H].
+Qed.
